@@ -37,9 +37,10 @@ for dp, dn, fns in os.walk(src):
 # body signatures of methods / functions, insensitive to the names of the module's own functions: lets the loader
 # recognise a function that was merely renamed
 sys.path.insert(0, V)
-from sa.inline import body_signature  # noqa: E402
+from sa.inline import body_signature, attr_signature  # noqa: E402
 
 sigs = {}
+asigs = {}
 for dp, dn, fns in os.walk(src):
     dn[:] = sorted(d for d in dn if d != "__pycache__")
     for fn in sorted(fns):
@@ -53,14 +54,19 @@ for dp, dn, fns in os.walk(src):
         t = ast.parse(open(p, encoding="utf-8").read())
         fnames = set(n.split(".")[-1] for n in out[mod] if not n.startswith("="))
         d = {}
+        da = {}
         for st in t.body:
             if isinstance(st, ast.FunctionDef):
                 d[st.name] = body_signature(st, fnames)
+                da[st.name] = list(attr_signature(st, fnames))
             elif isinstance(st, ast.ClassDef):
                 for m in st.body:
                     if isinstance(m, ast.FunctionDef):
                         d[f"{st.name}.{m.name}"] = body_signature(m, fnames)
+                        da[f"{st.name}.{m.name}"] = list(attr_signature(m, fnames))
         sigs[mod] = d
+        asigs[mod] = da
+sigs["#attrs"] = asigs
 out["#signatures"] = sigs
 json.dump(out, open(os.path.join(V, "sa", "known_functions.json"), "w"), indent=0, sort_keys=True)
 print(sum(len(v) for k, v in out.items() if not k.startswith("#")), "names in", len(out) - 1, "modules")
